@@ -63,12 +63,30 @@ def attempt(ctx, x, rsmi, vkind, kind, d, s):
     a, b = rsmi.split(">>")
     sub = R.unmapped_canonical(a if d == "fwd" else b)
     wit = {"template_rid": x["rid"], "rsmi": rsmi, "variant": vkind, "kind": kind, "dir": d, "strategy": s, "substrate_rid": x["rid"]}
+    if s == "comp":
+        # documented guard of the component-aware strategy (strict_cc_count): it returns nothing when the host has
+        # more connected components than the pattern, e.g. a spectator ion next to a centre template.  Decided from the input.
+        import networkx as nx
+        from synkit.Graph.ITS.its_decompose import its_decompose
+        l, r = its_decompose(tpl)
+        pat = l if d == "fwd" else r
+        if sub.count(".") + 1 > nx.number_connected_components(pat):
+            ctx.count("comp_skipped_host_has_more_components")
+            return
     c03._current[0] = wit
+    import time
+    t0 = time.time()
     out = RC.run(sub, tpl, invert=(d == "bwd"), strategy=s, flags=RC.flags_for(x["mode"]), want_its=True)
     c03._current[0] = None
+    if time.time() - t0 > 15:
+        ctx.count("slow_runs_over_15s")
+        ctx.notes.append(f"slow run {time.time() - t0:.0f}s: rid={x['rid']} {vkind} {kind} {d} {s}")
     for k in ("variants/" + vkind.split("+")[0], "kind/" + kind, "dir/" + d, "strategy/" + s, "mode/" + x["mode"]):
         ctx.count(k)
     ctx.count("regeneration_checked")
+    if out.get("timeout"):
+        ctx.count("runs_timed_out_inconclusive")
+        return
     if "error" in out:
         ctx.violation("reactor-exception", wit, f"reactor raised on a reaction's own template: {out['error']}")
         return
@@ -98,6 +116,7 @@ def attempt(ctx, x, rsmi, vkind, kind, d, s):
 
 def run(ctx):
     c03.install()
+    RC.RUN_TIMEOUT_S[0] = 10 if ctx.quick else 300
     rng = ctx.rng
     rx = [x for x in RC.rxns() if RC.flags_for(x["mode"])]
     step = 5 if ctx.quick else 1
